@@ -66,6 +66,9 @@ func (c *c17Conn) ExecContext(ctx context.Context, query string, args []driver.N
 }
 func (c *c17Conn) Close() error { return nil }
 
+// like go-sql-driver/mysql, the stub driver connection supports session reset
+func (c *c17Conn) ResetSession(ctx context.Context) error { return nil }
+
 type c17Connector struct{ w *c17World }
 
 func (c c17Connector) Connect(context.Context) (driver.Conn, error) {
@@ -226,6 +229,96 @@ func VerifC17Branch() {
 		}
 		if held && !fresh {
 			vrt.Assert(cmds[0].conn == 1, "xa/held-connection-finishes-the-branch")
+		}
+	}
+}
+
+// VerifC17Reuse: two statements of two global transactions on one pooled
+// connection (database/sql calls ResetSession between uses, never Close):
+// the second branch obeys the same rules whatever happened to the first.
+func VerifC17Reuse() {
+	w := &c17World{failAt: -1}
+	xids := []string{vrt.String("xid1", 2), vrt.String("xid2", 2)}
+	vrt.Assume(xids[0] != "" && xids[1] != "" && xids[0] != xids[1])
+	branchIDs := []uint64{7, 10}
+	round := 0
+	vrt.Redirect((*getty.GettyRemotingClient).SendSyncRequest, func(_ *getty.GettyRemotingClient, msg interface{}) (interface{}, error) {
+		if _, ok := msg.(message.BranchRegisterRequest); ok {
+			w.events = append(w.events, c17Event{-1, "REGISTER", true})
+			return message.BranchRegisterResponse{AbstractTransactionResponse: message.AbstractTransactionResponse{
+				AbstractResultMessage: message.AbstractResultMessage{ResultCode: message.ResultCodeSuccess}}, BranchId: int64(branchIDs[round])}, nil
+		}
+		return message.BranchReportResponse{AbstractTransactionResponse: message.AbstractTransactionResponse{
+			AbstractResultMessage: message.AbstractResultMessage{ResultCode: message.ResultCodeSuccess}}}, nil
+	})
+	branchStatusCache = gcache.New(16).LRU().Build()
+	xaConnTimeout = time.Hour
+	held := vrt.Choice("held", 2) == 1
+	res := &DBResource{resourceID: "res", dbType: types.DBTypeMySQL, connector: c17Connector{w}, shouldBeHeld: held, branchType: branch.BranchTypeXA}
+	mgr := &XAResourceManager{resourceCache: sync.Map{}, basic: datasource.NewBasicSourceManager(), rmRemoting: rm.GetRMRemotingInstance()}
+	mgr.resourceCache.Store("res", res)
+	rm.GetRmCacheInstance().RegisterResourceManager(mgr)
+	dc, _ := res.connector.Connect(context.Background())
+	c := &XAConn{Conn: &Conn{res: res, txCtx: types.NewTxCtx(), targetConn: dc, autoCommit: true, dbType: types.DBTypeMySQL}}
+
+	// how the first statement ends: a failure at one of its database commands
+	firstFail := vrt.Choice("first.failAt", 4) // command 0..3 of the first statement fails
+	for round = 0; round < 2; round++ {
+		ctx := tm.InitSeataContext(context.Background())
+		tm.SetXID(ctx, xids[round])
+		start := len(w.events)
+		w.faulted = false
+		if round == 0 {
+			w.failAt = w.cmds + firstFail
+		} else {
+			w.failAt = -1
+			if k := vrt.Choice("second.failAt", 5); k > 0 {
+				w.failAt = w.cmds + k - 1
+			}
+			// the pool hands the connection out again
+			if rerr := c.ResetSession(ctx); rerr != nil && rerr != driver.ErrSkip {
+				return
+			}
+		}
+		var err error
+		panicked := false
+		func() {
+			defer func() {
+				if recover() != nil {
+					panicked = true
+				}
+			}()
+			_, err = c.ExecContext(ctx, "UPDATE t SET a = 1", nil)
+		}()
+		if round == 0 {
+			continue
+		}
+		vrt.Reach("reuse/second-statement-done")
+		id := xids[1] + "-" + strconv.FormatUint(branchIDs[1], 10)
+		ev := w.events[start:]
+		started, prepared, rolledBack, committed := 0, 0, 0, 0
+		for _, e := range ev {
+			switch {
+			case e.ok && e.text == "XA START '"+id+"'":
+				started++
+			case e.ok && e.text == "XA PREPARE '"+id+"'":
+				prepared++
+			case e.text == "XA ROLLBACK '"+id+"'":
+				rolledBack++
+			case strings.HasPrefix(e.text, "XA COMMIT"):
+				committed++
+			}
+		}
+		vrt.Assert(!panicked, "reuse/no-panic")
+		vrt.Assert(committed == 0, "reuse/no-commit-in-phase-one")
+		if w.faulted {
+			vrt.Assert(err != nil, "reuse/failure=>error")
+			if started > 0 && prepared == 0 {
+				vrt.Assert(rolledBack >= 1, "reuse/failure-after-start=>rollback")
+			}
+		}
+		if err == nil {
+			vrt.Assert(started == 1 && prepared == 1, "reuse/success=>started-and-prepared")
 		}
 	}
 }
